@@ -217,9 +217,17 @@ def make_transcoder(
         if all(swaps):
             processes.append(("swap_input_endianess", swap_endianess))
         else:
+            # one flag per decoded channel (a stream may carry several)
+            channel_swaps: List[bool] = []
+            for data_stream, swap in zip(data_streams, swaps):
+                num_channels = max(
+                    1, 
+                    data_stream.encoding.num_interleaved_channels
+                )
+                channel_swaps += [swap] * num_channels
             processes.append((
                 "swap_input_endianess_multi", 
-                lambda x: swap_endianess_multi(x, swaps)
+                lambda x: swap_endianess_multi(x, channel_swaps)
             ))
     
     # is byte swap needed at output?
